@@ -1158,8 +1158,11 @@ public:
     operator SafeBool() const { return suffix_; }
 
     /// Sets the suffix value.
+    /// A value for an item the problem does not have is dropped
+    /// (e.g. the objective suffix .nsol of a problem without objectives).
     void SetValue(int index, T value) {
-      suffix_.set_value(index, value);
+      if (index >= 0 && index < suffix_.num_values())
+        suffix_.set_value(index, value);
     }
   };
 
